@@ -48,6 +48,7 @@ BODIES = [
     ("i_mul", "a: Qint[3], b: Qint[3]", "bool", ["c = a * b", "return c > 3"]),
     ("i_sum3", "a: Qint[3], b: Qint[3]", "bool", ["c = a + b", "d = c + a", "return d == 3"]),
     ("i_eq3", "a: Qint[4], b: Qint[4]", "bool", ["return a + b == 3"]),
+    ("i_eq9", "a: Qint[4], b: Qint[4], c: bool", "bool", ["return (a == b) and c"]),
     # fast optimizer: re-assigned locals / arguments keep several definitions of one symbol
     ("f_reas", "a: bool, b: bool, c: bool", "bool", ["x = a and b", "y = x or c", "x = b ^ c", "return y and x"]),
     ("f_arg", "a: bool, b: bool, c: bool", "bool", ["t = a or c", "a = b and c", "return t ^ a"]),
